@@ -10,6 +10,8 @@ import Verif.C13.Lemmas
 import Verif.C14.LemmasRule
 import Verif.C14.LemmasMerge
 import Verif.C14.LemmasTok
+import Verif.C14.LemmasCompose
+import Verif.C13.NoMatch
 
 namespace Verif.C14
 open Verif.C13
@@ -133,6 +135,71 @@ theorem yy_roundtrip (ts : List YTok) (h : ∀ t ∈ ts, t.paths ≠ [] ∧ L.Ln
 /-- the lattice `tokenize_result` builds (spans are non-negative by `provenance_program`). -/
 theorem yy_roundtrip_lattice (toks : List Tok) (h : ∀ t ∈ toks, 0 ≤ t.cfrom) :
     latParse (latStr (latticeOf toks 0)) = some (latticeOf toks 0) := L.yy_roundtrip_lattice toks h
+
+/-! ## composed: tokenize → lattice → YY string → parse, for every program -/
+
+/-- every token `tokenize` makes from the result of any program has both ends inside the original. -/
+theorem tokens_within (eng : Eng) (hv : EngValid eng) (f : Nat) (ops : List Op) (s : Str)
+    (st : List Step) (res : Result) (h : apply eng f ops s = .ok (st, res))
+    (seps : List (Nat × Nat)) (hs : ValidSeps res.string.length 0 seps) (toks : List Tok)
+    (ht : tokenize res seps = some toks) :
+    ∀ t ∈ toks, 0 ≤ t.cfrom ∧ t.cfrom ≤ s.length ∧ 0 ≤ t.cto ∧ t.cto ≤ s.length :=
+  L.tokens_within eng hv f ops s st res h seps hs toks ht
+
+/-- "the token lattice survives YY serialization and parsing unchanged", with no side condition left:
+the hypotheses of `yy_roundtrip` (`paths ≠ []`, a character span other than `<-1:-1>`) are met by
+everything `tokenize` produces from the result of any program on any input. -/
+theorem yy_roundtrip_tokenize (eng : Eng) (hv : EngValid eng) (f : Nat) (ops : List Op) (s : Str)
+    (st : List Step) (res : Result) (h : apply eng f ops s = .ok (st, res))
+    (seps : List (Nat × Nat)) (hs : ValidSeps res.string.length 0 seps) (toks : List Tok)
+    (ht : tokenize res seps = some toks) :
+    latParse (latStr (latticeOf toks 0)) = some (latticeOf toks 0) :=
+  L.yy_roundtrip_tokenize eng hv f ops s st res h seps hs toks ht
+
+/-- The provenance semantics (`provTracked`) takes "the start of the next in-order group" from
+`Verif.C13.nextStart`, the helper the model's `procTracked` also uses.  It is the Python expression
+`next((m.start(g) for _, g in tracked[i+1:] if g and m.start(g) >= pos), m.end())` read literally
+(`nextStartSpec`: first element of the list of starts of the later non-zero participating group
+references at or after `pos`, else the end of the match). -/
+theorem nextStart_spec (m : M) (pos : Nat) (segs : List Seg) : nextStart m pos segs = nextStartSpec m pos segs :=
+  L.nextStart_spec m pos segs
+
+/-- "a module with no applicable rule returns its input": string and both maps are the initial ones. -/
+theorem no_applicable_rule_maps (eng : Eng) (f : Nat) (ops : List Op) (s : Str) (st : List Step) (res : Result)
+    (h : apply eng f ops s = .ok (st, res)) (hn : opsNoMatchAt eng s ops = true) :
+    res = ⟨s, initStart s, initEnd s⟩ := by
+  unfold apply at h
+  cases ht : traceSteps eng f ops s with
+  | error e => rw [ht] at h; cases h
+  | ok p =>
+    obtain ⟨st', o⟩ := p
+    rw [ht] at h
+    obtain ⟨ho, hz⟩ := Verif.C13.L.no_applicable_rule eng f ops s st' o ht hn
+    have hm := L.mergeSteps_zero s st' (fun x hx => ⟨(hz x hx).2.1, (hz x hx).2.2⟩)
+    simp only [hm, Except.ok.injEq, Prod.mk.injEq] at h
+    rw [← h.2, ho]
+
+/-! ## the hypotheses are satisfiable; the independent provenance on a witness -/
+
+/-- the provenance semantics on the F16 witness `!wo(n't)<TAB>\1` on "I won't go": `I`, blank from 0, 1;
+`n't` from 4..6; ` go` from 7..9 — what `provenance_rule` then says the maps must report. -/
+example : provRule "I won't go".toList [.grp 1] [] [⟨2, 7, [some (4, 7)]⟩] 0
+    = [some 0, some 1, some 4, some 5, some 6, some 7, some 8, some 9] := by decide
+
+/-- `ValidMatches` holds of that match list (hypothesis of `provenance_rule`). -/
+example : ValidMatches "I won't go".toList [⟨2, 7, [some (4, 7)]⟩] := by
+  simp [ValidMatches, ValidFrom, M.Valid, groupInside]
+
+/-- `EngValid` is met by an engine that answers a match (hypothesis of `provenance_program`, `token_text`). -/
+example : EngValid (fun id s => if id = 0 ∧ s = "ab".toList then [⟨0, 1, []⟩] else []) := by
+  intro id s
+  by_cases h : id = 0 ∧ s = "ab".toList
+  · obtain ⟨h1, h2⟩ := h
+    subst h1 h2
+    simp [ValidMatches, ValidFrom, M.Valid]
+  · show ValidFrom s.length 0 (if id = 0 ∧ s = "ab".toList then [⟨0, 1, []⟩] else [])
+    rw [if_neg h]
+    trivial
 
 /-! ## concrete instances: the repaired defects as regressions (F16, F23, F17) -/
 
